@@ -88,7 +88,14 @@ def ensure_native(verbose: bool = False) -> Path:
 def preload_native(so: Path) -> None:
     """Load the freshly built extension as basilisp._lang before basilisp.lang.seq is imported."""
     if "basilisp.lang.seq" in sys.modules:
-        raise HarnessError("preload_native called after basilisp.lang.seq was imported")
+        cur = getattr(sys.modules.get("basilisp._lang"), "__file__", None)
+        if cur and Path(cur).resolve() == Path(so).resolve():
+            return  # already pre-loaded from the same artefact
+        loaded = sorted(m for m in sys.modules if m.startswith("basilisp"))[:12]
+        raise HarnessError(
+            f"preload_native called after basilisp.lang.seq was imported (basilisp._lang from {cur}; loaded: {loaded}; "
+            f"argv={sys.argv[:3]}; pid={os.getpid()})"
+        )
     import basilisp  # the package itself imports nothing native
 
     loader = importlib.machinery.ExtensionFileLoader("basilisp._lang", str(so))
